@@ -117,6 +117,7 @@ static std::vector<Op> buildAlphabet(const std::string& name, Limits& L, const s
         A.push_back(opFrame("ok", "app", 0, L)); A.push_back(opFrame("ok", "app", 2, L)); A.push_back(opFrame("ok", "0", 1, L));
         A.push_back(opFrame("ok", "n+1", 0, L)); A.push_back(opFrame("addpoints", "0", 1, L)); A.push_back(opFrame("addanalogs", "0", 1, L));
         A.push_back(opColPoint("ok", 1, L)); A.push_back(opColAnalog("ok", 1, L));
+        A.push_back(opParamCopyOfStored("NEWG", "X", "NEWG", "XR")); A.push_back(opParamCopyOfStored("NEWG", "X", "G2", "X")); A.push_back(opParam("lower_case_grp", "the_quick_brown_fox_jumps_over_a_lazy_dog_0189", pv("i7"), "d1", false, L));   // a stored parameter copied out, renamed and added again; every lower-case letter in a name
         A.push_back(opSubmitStored(0, "n", L)); A.push_back(opSubmitStored(0, "n+1", L)); A.push_back(opSubmitStored(0, "app", L));   // a stored frame handed back (append / past the end), then columns and a save
         A.push_back(opReload());
     } else if (name == "loaded") {  // C05 / C06 / C07 / C10: every editing call on objects LOADED from every single-deviation generated file (roots below)
